@@ -1930,6 +1930,10 @@ func (db *DatabaseCollectionWithUser) getResyncedDocument(ctx context.Context, d
 			channels = nil
 			roles = nil
 		}
+		if rev.ID != doc.GetRevTreeID() && !rev.Channels.Equals(channels) {
+			// A changed channel assignment of a non-winning leaf has to be persisted as well
+			forceUpdate = true
+		}
 		rev.Channels = channels
 
 		if rev.ID == doc.GetRevTreeID() {
